@@ -303,6 +303,34 @@ func (*ExprBridge).matchesLikePattern
   loop 1 invariant len(text) == 0 ==> pi == 0
   loop 2 invariant 0 <= pi && (len(text) == 0 ==> forall(i, 0, pi, pattern[i] == 37))
 
+// ---- what the rewriting steps look for
+func (*ExprBridge).ContainsLikeOperator
+  props C13 C06 C20
+  option pure
+  ensures a-like-keyword-between-blanks-in-any-letter-case: result <==> strings.Contains(strings.ToUpper(expression), " LIKE ")
+
+func (*ExprBridge).ContainsIsNullOperator
+  props C13 C06 C20
+  option pure
+  ensures is-null-or-is-not-null-after-a-blank-in-any-letter-case: result <==> strings.Contains(strings.ToUpper(expression), " IS NULL") || strings.Contains(strings.ToUpper(expression), " IS NOT NULL")
+
+func (*ExprBridge).ContainsBacktickIdentifiers
+  props C13 C06 C20
+  option pure
+  ensures any-backtick: result <==> strings.Contains(expression, "`")
+
+extern (*ExprBridge).PreprocessLikeExpression
+  props C13 C06 C20
+  option pure
+
+extern (*ExprBridge).PreprocessIsNullExpression
+  props C13 C06 C20
+  option pure
+
+extern (*ExprBridge).PreprocessBacktickIdentifiers
+  props C13 C06 C20
+  option pure
+
 // ---- expression bridge (expr-lang behind it): assumed contracts
 extern GetExprBridge
   props C04 C20 C05 C06 C13
